@@ -8,14 +8,19 @@ class StaticResult:
     pass
 
 
-def solve(r, fit="dlite", method=None, allow_negatives=False, pressures=True, ignore_four=False):
+def solve(r, fit="dlite", method=None, allow_negatives=False, pressures=True, ignore_four=False, reuse=None):
+    """reuse: a previous StaticResult of the SAME mesh objects: the frame and the ForSys object are kept (the vertices may
+    have been moved in place since), everything is built and solved again"""
     import forsys as fs
     from forsys import frames
     from fv.oracle import fb
     out = StaticResult()
     at = r.at
-    fr = frames.Frame(0, r.vertices, r.edges, r.cells)
-    solver = fs.ForSys({0: fr})
+    if reuse is None:
+        fr = frames.Frame(0, r.vertices, r.edges, r.cells)
+        solver = fs.ForSys({0: fr})
+    else:
+        fr, solver = reuse.frame, reuse.solver
     out.frame, out.solver = fr, solver
     pmap, inv = scen.physical_maps(r)
     cinv = {v: k for k, v in r.cmap.items()}
